@@ -49,8 +49,18 @@ def write_inputs(rng, fmt, work):
         if fmt == "kitti":
             idx = np.arange(n_base)
             t = base["t"]
+        elif not is_ref and rng.random() < .25 and n_base >= 8:
+            # a trajectory that covers only a window of the reference's time span, sampled more
+            # densely there (several poses around each base stamp)
+            a = int(rng.integers(0, n_base - 4))
+            b = int(rng.integers(a + 3, n_base + 1))
+            idx = np.repeat(np.arange(a, b), rng.integers(1, 4, size=b - a))
+            t = np.sort(base["t"][idx] + rng.uniform(-0.4, 0.4, size=len(idx)) * dt)
+            for kk in range(1, len(t)):
+                if t[kk] <= t[kk - 1]:
+                    t[kk] = t[kk - 1] + 1e-6 * dt
         else:
-            keep = rng.random(n_base) < rng.uniform(0.6, 1.0)
+            keep = rng.random(n_base) < (rng.uniform(0.6, 1.0) if not (is_ref and rng.random() < .3) else rng.uniform(0.25, 0.6))
             keep[[0, -1]] = True
             idx = np.nonzero(keep)[0]
             # unique stamps across all files (merge order among equal stamps is free)
@@ -83,12 +93,15 @@ def write_inputs(rng, fmt, work):
     k = int(rng.integers(1, 4))
     trajs = {}
     ext_name = {"tum": ".txt", "kitti": ".txt", "euroc": ".csv"}[fmt]
+    # file names: plain, or with dots inside the stem (parameter values, versions); the export of
+    # <stem>.<ext> is <stem>.tum / <stem>.kitti
+    dotted = bool(rng.random() < .2)
     for i in range(k):
-        name = "traj_%s%s" % ("abc"[i], ext_name)
+        name = ("vio_thresh0.%d%s" % ([5, 25, 125][i], ext_name)) if dotted else "traj_%s%s" % ("abc"[i], ext_name)
         trajs[name] = dump(variant(i), name, fmt)
     ref = None
     if rng.random() < .7:
-        ref = dump(variant(7, is_ref=True), "gt" + ext_name, fmt)
+        ref = dump(variant(7, is_ref=True), ("gt.v1.2" if dotted else "gt") + ext_name, fmt)
     return trajs, ref, {"ext": ext, "dt": dt, "n_base": n_base}
 
 
@@ -344,6 +357,22 @@ def traj_cli(run, case, rng, work):
         argv.append("--save_as_kitti")
     out_dir = os.path.join(work, "out")
     os.makedirs(out_dir)
+    relocated = []
+    if o["merge"] and o["use_ref"] and ref is not None and not case.get("exe") and rng.random() < .5:
+        # runs kept in one directory each, all files called like the reference, relative paths:
+        #   evo_traj tum run_0/gt.txt run_1/gt.txt --ref gt.txt --merge
+        import shutil
+        base = os.path.basename(ref[0])
+        shutil.copy(ref[0], os.path.join(out_dir, base))
+        relocated.append(base)
+        new_paths = {}
+        for i, (pth, sh) in enumerate(trajs.values()):
+            os.makedirs(os.path.join(out_dir, "run_%d" % i))
+            shutil.copy(pth, os.path.join(out_dir, "run_%d" % i, base))
+            new_paths[pth] = os.path.join("run_%d" % i, base)
+            relocated.append("run_%d" % i)
+        argv = [new_paths.get(a, a) for a in argv]
+        argv = [base if a == ref[0] else a for a in argv]
     if not case.get("exe") and rng.random() < .15:
         argv = C01.move_to_config(rng, argv, out_dir, 1 + len(trajs))
     if case.get("exe"):
@@ -409,7 +438,7 @@ def traj_cli(run, case, rng, work):
     extra = sorted(set(os.listdir(out_dir)) - {st + "." + k for st in list(names) + ([stem(ref[0])] if R is not None else [])
                                                 for k in ("tum", "kitti")})
     # files of the output-only options (plots, tables, log files) are not exports
-    extra = [f for f in extra if not (f.startswith(("plot", "table")) or f in ("log.txt", "options.json"))]
+    extra = [f for f in extra if not (f.startswith(("plot", "table")) or f in ("log.txt", "options.json") or f in relocated)]
     run.check(not extra, "no unexpected exports", case, "unexpected files written: %s" % extra,
               key="export:unexpected-files", argv=argv)
 
